@@ -246,7 +246,9 @@ func (x *Ext) after64(tag string) {
 		}
 		o := x.B64[i]
 		if ok, d := eq64(o.BM, o.M); !ok {
-			w.fail(tag, "contents", "result differs from model", fmt.Sprintf("64-bit slot %d after %s: %s", i, w.curOp, d))
+			if !x.readFault64(i, d) {
+				w.fail(tag, "contents", "result differs from model", fmt.Sprintf("64-bit slot %d after %s: %s", i, w.curOp, d))
+			}
 			w.rebuild64(i)
 		}
 	}
@@ -255,7 +257,7 @@ func (x *Ext) after64(tag string) {
 			continue
 		}
 		if ok, d := eq64(o.BM, o.M); !ok {
-			if !o.NoCopy {
+			if !x.readFault64(i, d) && !o.NoCopy {
 				w.fail("C07", "bystander", "64-bit bitmap not involved as output changed", fmt.Sprintf("64-bit slot %d (%s) changed during %s: %s", i, o.Prov, w.curOp, d))
 			}
 			w.rebuild64(i)
@@ -276,6 +278,22 @@ func (x *Ext) after64(tag string) {
 		}
 	}
 	x.outs64 = map[int]bool{}
+}
+
+// readFault64 attributes a memory fault met while reading a 64-bit bitmap (see World.readFault).
+func (x *Ext) readFault64(slot int, detail string) bool {
+	var addr uintptr
+	if n, _ := fmt.Sscanf(detail, "FAULT@0x%x", &addr); n != 1 {
+		return false
+	}
+	w := x.w
+	o := x.B64[slot]
+	if ri, reg := w.regionOf(addr); reg != nil {
+		w.fail(reg.Prop, "region-fault", reg.StateName()+" "+o.Prov, fmt.Sprintf("reading 64-bit slot %d (%s) after %s faults at %#x inside region %d (%s, %s)", slot, o.Prov, w.curOp, addr, ri, reg.Kind, reg.StateName()))
+		return true
+	}
+	w.fail(w.curTag, "panic", "memory fault outside regions while reading contents", detail)
+	return true
 }
 
 // sharing64: an inner 32-bit bitmap reachable from two 64-bit bitmaps (or from a
@@ -736,7 +754,8 @@ func init() {
 			}
 			var p int64
 			var ri, pulled int
-			if w.try("C18", func() { p, err, ri, pulled = w.decode64(dst, data, re, st.A[2], "C18", false) }) {
+			// the buffer of a successful zero-copy decode is caller-owned memory: a later write into it is C08's
+			if w.try("C18", func() { p, err, ri, pulled = w.decode64(dst, data, re, st.A[2], "C08", false) }) {
 				w.out64(st.S[0])
 				return
 			}
